@@ -139,6 +139,56 @@ else:
         raise OutsideModel("scp model used in real mode")
 
 
+def stft(x, fs=1.0, window="hann", nperseg=256, noverlap=None, nfft=None, detrend=False, return_onesided=True,
+         boundary="zeros", padded=True, axis=-1, scaling="spectrum"):
+    """scipy.signal.stft by its documented contract for the time / frequency
+    vectors and the output shape; the spectrum values are not modelled."""
+    from models import xrl
+
+    if nperseg < 1:
+        raise ValueError("nperseg must be a positive integer")
+    if noverlap is None:
+        noverlap = nperseg // 2
+    if noverlap >= nperseg:
+        raise ValueError("noverlap must be less than nperseg.")
+    if noverlap < 0:
+        raise ValueError("noverlap must be non-negative")
+    shape = list(x.shape)
+    if axis < 0:
+        axis += len(shape)
+    n = shape[axis]
+    nstep = nperseg - noverlap
+    n_ext = n + (2 * (nperseg // 2) if boundary is not None else 0)
+    if padded:
+        n_ext += (-(n_ext - nperseg) % nstep) % nperseg
+    n_frames = (n_ext - nperseg) // nstep + 1
+    if n_frames < 0:
+        n_frames = 0
+    freqs = npl.ndarray([j * fs / nperseg for j in range(nperseg // 2 + 1)], (nperseg // 2 + 1,), npl.float64)
+    times = npl.ndarray([i * nstep / fs for i in range(n_frames)], (n_frames,), npl.float64)
+    out_shape = shape[:axis] + [nperseg // 2 + 1] + shape[axis + 1:] + [n_frames]
+    return freqs, times, xrl.OpaqueData(out_shape)
+
+
+def resample(x, num, t=None, axis=0, window=None, domain="time"):
+    """scipy.signal.resample: `num` samples along axis; new_t[i] = t[0] + i*(t[1]-t[0])*len(t)/num"""
+    from models import xrl
+
+    shape = list(x.shape)
+    n = shape[axis]
+    shape[axis] = num
+    y = xrl.OpaqueData(shape)
+    if t is None:
+        return y
+    tl = t.tolist() if hasattr(t, "tolist") else list(t)
+    new_t = npl.ndarray([tl[0] + i * (tl[1] - tl[0]) * n / num for i in range(num)], (num,), npl.float64)
+    return y, new_t
+
+
+signal = types.ModuleType("scipy.signal")
+signal.stft = stft
+signal.resample = resample
+
 sparse = types.ModuleType("scipy.sparse")
 sparse.coo_array = coo_array
 csgraph = types.ModuleType("scipy.sparse.csgraph")
